@@ -73,12 +73,15 @@ impl Space for Inject {
 
 pub fn run(tier: &str) -> i32 {
     let rep = Report::new("C15", tier, "fault_enumeration");
-    rep.set_rule("6 valid hosts (named struct x 2 counterparts, tuple struct with `as {}`, flattened struct, parent struct, enum with payloads, enum -> primitive) x the catalogue of ~60 concrete injections covering every misuse class of the statement (no trait instruction, duplicate instruction, missing/superfluous error type, 10 dedicated-to-unknown forms, duplicate default/dedicated for every instruction family, misplaced/misnamed names in bare and o2o(..) form, ghost without default, child without child_parents / missing path prefix, tuple/named mismatch, untyped nested parent, trait-level and member-level repeat conflicts, permeating repeat on a struct) x EVERY admissible position (type level: every index of the attribute list; member level: every member) and every PAIR of injections (quick: pairs with <= 2 non-default positions; thorough: all positions). Oracle M_diag: verdict Err, and for every injected fault one diagnostic containing its salient key words; the fault-free hosts and every semantic struct case (valid by construction) must be accepted. states = distinct inputs; non-trivial = inputs with two simultaneous faults");
+    rep.set_rule("6 valid hosts (named struct x 2 counterparts, tuple struct with `as {}`, flattened struct, parent struct, enum with payloads, enum -> primitive) x the catalogue of ~60 concrete injections covering every misuse class of the statement (no trait instruction, duplicate instruction, missing/superfluous error type, 10 dedicated-to-unknown forms, duplicate default/dedicated for every instruction family, misplaced/misnamed names in bare and o2o(..) form, ghost without default, child without child_parents / missing path prefix, tuple/named mismatch, untyped nested parent, trait-level and member-level repeat conflicts, permeating repeat on a struct) x EVERY admissible position (type level: every index of the attribute list; member level: every member) and every PAIR of injections at every position x every surrounding valid instruction for a further counterpart (5 forms, first/last); thorough adds triples up to deviation bound 4. Oracle M_diag: verdict Err, and for every injected fault one diagnostic containing its salient key words; the fault-free hosts and every semantic struct case (valid by construction) must be accepted. states = distinct inputs; non-trivial = inputs with two simultaneous faults");
     rep.assume("a diagnostic `names the problem` when it contains the salient identifiers/key words of the class (OR of AND-sets), never full wording");
     let caps = Caps::from_env(if tier == "quick" { 120.0 } else { 1200.0 });
     run_space(&Inject { k: 0 }, None, &caps, &rep);
     run_space(&Inject { k: 1 }, None, &caps, &rep);
-    run_space(&Inject { k: 2 }, if tier == "quick" { Some(3) } else { None }, &caps, &rep);
+    run_space(&Inject { k: 2 }, None, &caps, &rep);
+    if tier != "quick" {
+        run_space(&Inject { k: 3 }, Some(4), &caps, &rep);
+    }
     // "an input that breaks none is never rejected": the semantic struct space is valid by construction
     {
         let o = crate::sem_struct::Opts { max_n: if tier == "quick" { 2 } else { 3 }, menu: crate::sem_struct::MENU_FULL, max_ghosts: 1, allow_update: true, permute_idx: true };
